@@ -1113,6 +1113,37 @@ pub async fn run_c14(w: &mut World, m: &mut Mon, r: &mut R, t: &Twin) {
                 m.r.distinct(&("expired-op", dt, o.ok(), o.custom_code()));
             }
         }
+        // a second pause of which the group hears although it never heard that the first one was
+        // over (it ran out, or the admin lifted it, with no propagation in between): the group's
+        // window must be the second pause's
+        {
+            let t1 = w.chain.now() + pick(r, &[5i64, 600, 7200]);
+            w.chain.set_time(t1);
+            w.refresh_oracles();
+            if r.gen_bool(0.5) {
+                let _ = w.exec(m, &[ix::panic_unpause(fa.pubkey())], &[&fa]).await;
+            }
+            let o2 = w.exec(m, &[pause.clone()], &[&fa]).await;
+            if o2.ok() {
+                m.r.count("C14.second_pause_without_intermediate_propagation");
+                let _ = w.exec(m, &[prop.clone()], &[]).await;
+                for dt in [0i64, 1799, 1800] {
+                    w.chain.set_time(t1 + dt);
+                    w.refresh_oracles();
+                    for (ixn, kp) in users_ops(w) {
+                        let o = w.exec(m, &[ixn], &[&kp]).await;
+                        m.r.eval();
+                        m.r.count(if dt < 1800 { "C14.pause_window_cells" } else { "C14.after_expiry_cells" });
+                        m.r.distinct(&("second-pause", dt, o.ok(), o.custom_code()));
+                        if dt < 1800 && o.ok() {
+                            m.r.count("C14.accepted_during_second_pause");
+                        }
+                    }
+                }
+            } else {
+                m.r.count(&format!("C14.second_pause_refused/{}", o2.custom_code().map(|c| c.to_string()).unwrap_or_else(|| "other".into())));
+            }
+        }
         // clean up the global state for the next world steps
         let _ = w.exec(m, &[ix::panic_unpause(fa.pubkey())], &[&fa]).await;
         let _ = w.exec(m, &[ix::panic_unpause_permissionless()], &[]).await;
